@@ -132,15 +132,90 @@ def gen(ch):
     return S.finish(gj, assets, prices)
 
 
+def gen_unit(ch):
+    """plant / CHP (on/off variables) declared periodic or given a coarser grid of its own: the constructors accept both options"""
+    gname = ch.free("grid", ["8x6h", "12x2h"])
+    gj = dict(S.GRIDS[gname])
+    g = Grid.from_json(gj)
+    T = g.T
+    prices = S.make_prices(T, ch.free("prices", S.PRICE_PAIRS[:2]))
+    prices["fuelc"] = [3.0] * T
+    r = S.r
+    kind = ch.free("unit", ["Plant", "CHPAsset"])
+    a = dict(type=kind, name="x", nodes=["n1"] if kind == "Plant" else ["n1", "n2"], price="fuelc", min_cap=r(ch.pick("x.min_cap", [1.0, 0.0]), g), max_cap=r(4.0, g))
+    opt = ch.free("option", ["periodicity", "freq"])
+    if opt == "periodicity":
+        p = ch.pick("periodicity", GRID_OPTS[gname]["per"][:3])
+        a["periodicity"] = p[0]
+        if p[1]:
+            a["periodicity_duration"] = p[1]
+    else:
+        a["freq"] = ch.pick("freq", GRID_OPTS[gname]["freq"])
+    if ch.pick("x.start_costs", [0.0, 2.0]):
+        a["start_costs"] = 2.0
+    if ch.pick("x.min_runtime", [0, 2]):
+        a["min_runtime"] = S.d_(2 * g.dt[0] * S.MTU_H[g.mtu], g)
+    assets = [dict(type="SimpleContract", name="mkt", nodes=["n1"], price="p", min_cap=r(-9.0, g), max_cap=r(9.0, g)),
+              dict(type="SimpleContract", name="mk2", nodes=["n2"], price="q", min_cap=r(-4.0, g), max_cap=r(4.0, g)), a]
+    scn = S.finish(gj, assets, prices)
+    scn["meta"] = dict(family="unit", option=opt)
+    return scn
+
+
+def run_unit(case):
+    """the option works (dispatch periodic / at a constant rate, value between the portfolio without the unit and the one with the unit
+    free of the option) or is refused with a message naming the option - anything else is a violation"""
+    import copy
+    scn = case["scenario"]
+    a = [x for x in scn["assets"] if x["name"] == "x"][0]
+    opt = scn["meta"]["option"]
+    tags = S.feature_tags(scn) + ["option:" + opt, "target:" + a["type"], "family:unit"]
+    ctag = ["option:" + opt, "target:unit"]
+    res = dict(status="ok", violations=[], counters={})
+    V = res["violations"]
+    run = ImplRun(scn, solver="SCIPY")
+    res["fingerprint"] = "%s|%s" % (run.status, None if run.value is None else round(run.value, 6))
+    res["outcome"] = "unit:%s" % run.status
+    if run.status == "exception":
+        msg = str(run.error)
+        if ("Freq of asset" in msg and "unequal to freq" in msg) or "periodic" in msg.lower():
+            res.update(status="skip", validated=False, outcome="documented_refusal")   # explicit refusal naming the option: no claim
+            res["counters"]["refusal_" + opt] = 1
+            return res
+        V.append(viol("c13.raises", "%s with %s raises %s at %s (stage %s)" % (a["type"], {k: a[k] for k in ("freq", "periodicity", "periodicity_duration") if k in a},
+                                                                             run.error, run.site, run.stage), tags + ["site:%s" % run.site], ctag))
+        return res
+    if run.status != "optimal":
+        res.update(status="skip", validated=False)
+        return res
+    free = copy.deepcopy(scn)
+    for x in free["assets"]:
+        if x["name"] == "x":
+            for k in ("freq", "periodicity", "periodicity_duration"):
+                x.pop(k, None)
+    without = copy.deepcopy(scn)
+    without["assets"] = [x for x in without["assets"] if x["name"] != "x"]
+    rf, rw = ImplRun(free, solver="SCIPY", want_output=False), ImplRun(without, solver="SCIPY", want_output=False)
+    tol = 1e-6 * (1 + abs(run.value))
+    if rf.status == "optimal" and run.value > rf.value + tol:
+        V.append(viol("c13.value", "unit with %s: value %.8f exceeds the value %.8f of the same unit without the option" % (opt, run.value, rf.value), tags, ctag))
+    if rw.status == "optimal" and float(a["min_cap"]) >= 0 and not a.get("min_runtime") and run.value < rw.value - tol:
+        V.append(viol("c13.value", "unit with %s: value %.8f is below the value %.8f of the portfolio without the unit (it can stay off)" % (opt, run.value, rw.value), tags, ctag))
+    res["nontrivial"] = True
+    return res
+
+
 def build_cases(tier):
     K = 2 if tier == "quick" else 3
-    cases, stats = merge_cases(family("c13", gen, K))
+    cases, stats = merge_cases(family("c13", gen, K), family("unit", gen_unit, K))
     stats["bound"] = dict(K=K)
     return cases, stats
 
 
 def run_case(case):
     scn = case["scenario"]
+    if scn.get("meta", {}).get("family") == "unit":
+        return run_unit(case)
     tags = S.feature_tags(scn)
     a = [x for x in scn["assets"] if x["name"] == "x"][0]
     opt_kind = "both" if (a.get("freq") and a.get("periodicity")) else "freq" if a.get("freq") else "periodicity"
